@@ -259,9 +259,9 @@ func c08Alphabet(fids []p9p.Fid, rich bool) []SOp {
 	add(SOp{Kind: "attach", Fid: 1, Fid2: 0})
 	add(SOp{Kind: "attach", Fid: 1, Fid2: 7})
 	add(SOp{Kind: "attach", Fid: 0, Fid2: 0})
-	nameLists := [][]string{{}, {"a"}, {"a", "b"}, {"x"}, {"a", "x"}}
+	nameLists := [][]string{{}, {"a"}, {"a", "b"}, {"x"}, {"a", "x"}, {".."}}
 	if rich {
-		nameLists = append(nameLists, []string{"c"}, []string{".."}, []string{"."}, []string{"a", ".."}, []string{"a/b"})
+		nameLists = append(nameLists, []string{"c"}, []string{"."}, []string{"a", ".."}, []string{"a/b"}, []string{"..", "a"})
 	}
 	for _, f := range fids {
 		for _, nf := range targets {
@@ -270,9 +270,10 @@ func c08Alphabet(fids []p9p.Fid, rich bool) []SOp {
 			}
 		}
 	}
-	modes := []p9p.Flag{p9p.OREAD, p9p.OWRITE, p9p.ORDWR}
+	// the access part of a mode is its low two bits: OTRUNC / ORCLOSE ride on top
+	modes := []p9p.Flag{p9p.OREAD, p9p.OWRITE, p9p.ORDWR, p9p.OWRITE | p9p.OTRUNC}
 	if rich {
-		modes = append(modes, p9p.OEXEC, p9p.OWRITE|p9p.OTRUNC)
+		modes = append(modes, p9p.OEXEC, p9p.OWRITE|p9p.ORCLOSE, p9p.OREAD|p9p.ORCLOSE, p9p.ORDWR|p9p.OTRUNC|p9p.ORCLOSE)
 	}
 	for _, f := range fids {
 		for _, m := range modes {
